@@ -82,7 +82,7 @@ func (s St) constructor() policy.Constructor {
 	case ">=":
 		return policy.GreaterThanOrEqual(s.Sel, c11Lits[s.Lit])
 	case "like":
-		return policy.Like(s.Sel, s.Lit)
+		return policy.Like(s.Sel, c11PatText(s.Lit))
 	case "not":
 		return policy.Not(s.Kids[0].constructor())
 	case "and", "or":
@@ -101,6 +101,9 @@ func (s St) constructor() policy.Constructor {
 	}
 	panic("bad op " + s.Op)
 }
+
+// c11PatText turns the marker {ff} of a pattern descriptor into the byte 0xff (descriptors travel through JSON replay files).
+func c11PatText(lit string) string { return strings.ReplaceAll(lit, "{ff}", "\xff") }
 
 func (s St) policy() policy.Policy {
 	p, err := policy.Construct(s.constructor())
@@ -338,7 +341,7 @@ func classical(s St, data datamodel.Node) tri {
 		if err != nil {
 			return triFalse
 		}
-		toks, ok := refmodel.GlobParse(s.Lit)
+		toks, ok := refmodel.GlobParse(c11PatText(s.Lit))
 		if !ok {
 			panic("bad pattern")
 		}
@@ -366,6 +369,8 @@ var c11AVals = []namedNode{
 	// maps are unordered: the same entries inserted in either order, as a value and inside a list
 	{"{x:1,y:2}", nMap(kv{"x", nInt(1)}, kv{"y", nInt(2)})}, {"{y:2,x:1}", nMap(kv{"y", nInt(2)}, kv{"x", nInt(1)})}, {"{x:1,y:3}", nMap(kv{"x", nInt(1)}, kv{"y", nInt(3)})},
 	{"[{x:1,y:2}]", nList(nMap(kv{"x", nInt(1)}, kv{"y", nInt(2)}))},
+	// strings that are not UTF-8: a byte is a byte (0xff is not 0xfe, neither is U+FFFD)
+	{`"a"+0xfe`, nStr("a\xfe")}, {`"a"+0xff`, nStr("a\xff")}, {`"a"+U+FFFD`, nStr("a\uFFFD")},
 	// links: equal only if the whole CID is (version, codec and multihash)
 	{"link(cbor,h0)", nLink(0)}, {"link(cbor,h1)", nLink(1)}, {"link(raw,h0)", nLinkAs(0, cid.Raw, false)}, {"link(v0,h0)", nLinkAs(0, 0, true)}, {"[link(raw,h0)]", nList(nLinkAs(0, cid.Raw, false))},
 }
@@ -485,7 +490,7 @@ func c11Atoms() []St {
 		}
 	}
 	for _, sel := range c11Sels {
-		for _, pat := range []string{"a*", "*", "b", "a*a", "a*b", `a\*`, c11LongPat} {
+		for _, pat := range []string{"a*", "*", "b", "a*a", "a*b", `a\*`, c11LongPat, "a{ff}*", "a{ff}", "*\uFFFD"} {
 			r = append(r, St{Op: "like", Sel: sel, Lit: pat})
 		}
 	}
@@ -501,7 +506,7 @@ func c11AtomSub() *engine.Sub {
 	return &engine.Sub{
 		Name:   "atoms-truth",
 		Repeat: true,
-		Rule:   "every comparison atom (5 operators x 7 selectors (one with a negative slice bound) x 12 literals) and like atom (7 selectors x 6 patterns) as a top-level statement, on every datum {a in 30 values, b in 3, l in 5 (lists of several lengths, so that one parsed selector meets them all)}: if the selector resolves, Match = PartialMatch = classical truth (same-kind numbers only; an ordering statement with a NaN operand is false; infinite operands of ordering operators and == on NaN are don't-care); if required data is missing Match=false and PartialMatch=true; if optional data is missing both are true; non-trivial = selector resolves",
+		Rule:   "every comparison atom (5 operators x 7 selectors (one with a negative slice bound) x 12 literals) and like atom (7 selectors x 10 patterns, three of them with a byte that is not UTF-8 / U+FFFD) as a top-level statement, on every datum {a in 33 values, b in 3, l in 5 (lists of several lengths, so that one parsed selector meets them all)}: if the selector resolves, Match = PartialMatch = classical truth (same-kind numbers only; an ordering statement with a NaN operand is false; infinite operands of ordering operators and == on NaN are don't-care); if required data is missing Match=false and PartialMatch=true; if optional data is missing both are true; non-trivial = selector resolves",
 		Bound:  func(string) string { return fmt.Sprintf("%d atoms x %d data", len(c11Atoms()), len(data)) },
 		Gen: func(tier string, emit func(any) bool) {
 			for _, a := range c11Atoms() {
@@ -953,7 +958,7 @@ func C11() *engine.Check {
 	return &engine.Check{
 		Property: "C11",
 		Level:    "model_checking",
-		Subs:     []*engine.Sub{c11AtomSub(), c11SharedSub(), c11StructSub(), c11ConcatSub(), c11ConcSub(), concRaceSub("C11")},
+		Subs:     []*engine.Sub{c11AtomSub(), c11SharedSub(), c11WideSub(), c11StructSub(), c11ConcatSub(), c11ConcSub(), concRaceSub("C11")},
 		Assumptions: []string{
 			"'every selector resolves' is decided with the real selector.Select per statement (per element under quantifiers); selector semantics are C12's business",
 			"don't-care: infinite operands of ordering operators, == on NaN, the empty or, quantifiers over non-lists",
